@@ -1,32 +1,118 @@
 //! Grammar families handed to engine B (only model-side filters here; lelwel's own verdict is taken later).
 
 use crate::stats::ebnf_bound;
-use vmodel::families::ebnf_all;
+use vmodel::families::*;
 use vmodel::Grammar;
 
 /// EBNF family members that are fully productive (so the emitted parser cannot recurse forever by
-/// construction of the grammar), each with an additional skipped token `W`.
+/// construction of the grammar).
 pub fn ebnf_b(leaves: usize, unary: usize, max_rules: usize) -> Vec<Grammar> {
     let mut out = vec![];
     ebnf_all(&ebnf_bound(leaves, unary, max_rules, false), &mut |g| {
         if g.fully_productive() {
-            out.push(g.clone().with_skip_token());
+            out.push(g.clone());
         }
     });
     out
 }
 
-pub fn family(tier_thorough: bool) -> Vec<Grammar> {
-    let mut v = if tier_thorough {
-        let mut v = ebnf_b(4, 2, 3);
-        v.extend(ebnf_b(5, 1, 2));
-        v
-    } else {
-        let mut v = ebnf_b(3, 2, 3);
-        v.extend(ebnf_b(4, 0, 3));
-        v
-    };
+#[derive(Clone, Copy, PartialEq, Eq, Debug)]
+pub enum Fam {
+    Ebnf,
+    Pratt,
+    Node,
+    Pred,
+    Choice,
+    Parts,
+}
+
+pub fn describe(f: Fam, thorough: bool) -> &'static str {
+    match (f, thorough) {
+        (Fam::Ebnf, false) => "EBNF(3,2,rules<=3) ∪ EBNF(4,0,rules<=3)",
+        (Fam::Ebnf, true) => "EBNF(4,1,rules<=3) ∪ EBNF(3,2,rules<=3) ∪ EBNF(5,0,rules<=3)",
+        (Fam::Pratt, false) => "PRATT(branches<=2, 2 operator tokens)",
+        (Fam::Pratt, true) => "PRATT(branches<=3, 2 operator tokens) ∪ PRATT(branches<=2, 3 operator tokens)",
+        (Fam::Node, false) => "NODE(1) on 8 base bodies",
+        (Fam::Node, true) => "NODE(2) on 8 base bodies",
+        (Fam::Pred, false) => "PRED: EBNF(2,1,2) ∪ EBNF(3,0,2) with 1 inserted ?1/?t/!1/#1",
+        (Fam::Pred, true) => "PRED: EBNF(2,1,2) with <=2, EBNF(3,1,2) with 1 inserted ?1/?t/!1/#1",
+        (Fam::Choice, false) => "CHOICE: one ordered choice in EBNF(3,0,2) with <=1 inserted ~/&/!1, and in EBNF(4,0,2)",
+        (Fam::Choice, true) => "CHOICE: one ordered choice in EBNF(3,0,2) with <=2 inserted ~/&/!1, EBNF(4,0,2) with <=1",
+        (Fam::Parts, false) => "PARTS: EBNF(3,1,3) with every non-empty subset of non-start rules as parts",
+        (Fam::Parts, true) => "PARTS: EBNF(4,1,3) with every non-empty subset of non-start rules as parts",
+    }
+}
+
+pub fn family_of(f: Fam, thorough: bool) -> Vec<Grammar> {
+    match (f, thorough) {
+        (Fam::Ebnf, false) => {
+            let mut v = ebnf_b(3, 2, 3);
+            v.extend(ebnf_b(4, 0, 3));
+            v
+        }
+        (Fam::Ebnf, true) => {
+            let mut v = ebnf_b(4, 1, 3);
+            v.extend(ebnf_b(3, 2, 3));
+            v.extend(ebnf_b(5, 0, 3));
+            v
+        }
+        (Fam::Pratt, t) => {
+            let mut v = vec![];
+            if t {
+                pratt_family(3, 2, &mut |g| v.push(g.clone()));
+                pratt_family(2, 3, &mut |g| v.push(g.clone()));
+            } else {
+                pratt_family(2, 2, &mut |g| v.push(g.clone()));
+            }
+            v
+        }
+        (Fam::Node, t) => node_family(if t { 2 } else { 1 }, &node_bases()),
+        (Fam::Pred, false) => {
+            let mut v = pred_family(&ebnf_bound(2, 1, 2, false), 1);
+            v.extend(pred_family(&ebnf_bound(3, 0, 2, false), 1));
+            v
+        }
+        (Fam::Pred, true) => {
+            let mut v = pred_family(&ebnf_bound(2, 1, 2, false), 2);
+            v.extend(pred_family(&ebnf_bound(3, 1, 2, false), 1));
+            v
+        }
+        (Fam::Choice, false) => {
+            let mut v = choice_family(&ebnf_bound(3, 0, 2, false), 1);
+            v.extend(choice_family(&ebnf_bound(4, 0, 2, false), 0));
+            v
+        }
+        (Fam::Choice, true) => {
+            let mut v = choice_family(&ebnf_bound(3, 0, 2, false), 2);
+            v.extend(choice_family(&ebnf_bound(4, 0, 2, false), 1));
+            v
+        }
+        (Fam::Parts, t) => parts_family(&ebnf_bound(if t { 4 } else { 3 }, 1, 3, false)),
+    }
+}
+
+pub fn families_for(prop: &str) -> Vec<Fam> {
+    use Fam::*;
+    match prop {
+        "C04" => vec![Ebnf, Pratt, Node, Choice, Parts],
+        "C05" => vec![Node, Ebnf, Pratt, Pred, Parts],
+        "C06" => vec![Ebnf, Pratt, Node, Parts],
+        "C07" => vec![Pratt],
+        "C08" => vec![Choice],
+        _ => vec![Ebnf, Pratt, Node, Pred, Choice, Parts],
+    }
+}
+
+/// All grammars for a property (deduplicated, each with an additional skipped token `W`).
+pub fn family(prop: &str, thorough: bool) -> (Vec<Grammar>, Vec<String>) {
+    let mut v = vec![];
+    let mut names = vec![];
+    for f in families_for(prop) {
+        v.extend(family_of(f, thorough));
+        names.push(describe(f, thorough).to_string());
+    }
     let mut seen = std::collections::HashSet::new();
     v.retain(|g| seen.insert(g.clone()));
-    v
+    let v = v.into_iter().map(|g| g.with_skip_token()).collect();
+    (v, names)
 }
